@@ -9,6 +9,7 @@ mod c01;
 mod c02;
 mod c03;
 mod c08;
+mod c15;
 
 fn main() {
     // panics of the code under test are data, not noise
@@ -26,6 +27,7 @@ fn main() {
         "c03-tok" => c03::tok(rest),
         "c03-gen" => c03::corpus(rest),
         "c03-prod" => c03::prod(rest),
+        "c15-replay" => c15::replay(rest),
         "c08-replay" => c08::replay(),
         _ => {
             eprintln!("unknown sub-command {cmd:?} {rest:?}");
